@@ -39,13 +39,43 @@ const shard int64 = 1
 
 type entry struct{ idx, sk string }
 
-var indexes = []string{"i", "j"}
+// The first six entries are the alphabet of the write-history configurations; the index-name
+// configurations append theirs (entryIdx).
+var stdIndexes = []string{"i", "j"}
 var allEntries = []entry{{"i", "a"}, {"i", "b"}, {"i", "a/b"}, {"j", "a"}, {"j", "b"}, {"j", "a/b"}}
-var pks = []string{"p", "q", "p/q"}
+var stdPks = []string{"p", "q", "p/q"}
 
 // probe keys for queries: below the first possible entry, every secondary key, keys between them
 // and above the last one (slash order: 0 < a < b < c < a/a < a/b < a/c < b/a).
-var probes = []string{"", "0", "a", "b", "c", "a/a", "a/b", "a/c", "b/a"}
+var stdProbes = []string{"", "0", "a", "b", "c", "a/a", "a/b", "a/c", "b/a"}
+
+// Index-name universe of the "index-names" configurations. The raw key of an entry is
+// `__oxia/idx/<name>/<secondary key>\x01<url-escaped primary key>` with the name written as it is, and the
+// engine orders keys segment by segment (CompareWithSlash), so the entries of the indexes follow one
+// another in the byte order of their names. Around the base name "i":
+//   - "hi"  sorts directly before "i" and has it as a suffix;
+//   - "i-", "i.", "i0", "ij" have "i" as a strict prefix; '-' and '.' are the bytes below '/', '0' the one above
+//     (a guard or bound built with or without the trailing '/', or compared in plain byte order, tells them apart);
+//   - "j" is the unrelated neighbour of the write-history configurations;
+//   - "I" differs in case only;
+//   - thorough tier: "i-j" (a chain i < i- < i-j of prefixes), "i~" (last printable extension),
+//     "i%2F" (what escaping "i/" would give), "i\x01" (the separator of the secondary key inside a name).
+var quickNames = []string{"I", "hi", "i", "i-", "i.", "i0", "ij", "j"}
+var thoroughNames = []string{"I", "hi", "i", "i\x01", "i%2F", "i-", "i-j", "i.", "i0", "ij", "i~", "j"}
+
+// Names containing '/' are written into the key unescaped as well: index "i/j" with secondary key "a" and
+// index "i" with secondary key "j/a" produce the same key prefix. Explored by the "slash-names" configuration.
+var slashNames = []string{"i", "i/j", "j"}
+
+func entryIdx(idx, sk string) int {
+	for n, e := range allEntries {
+		if e.idx == idx && e.sk == sk {
+			return n
+		}
+	}
+	allEntries = append(allEntries, entry{idx, sk})
+	return len(allEntries) - 1
+}
 
 var thoroughTier bool
 var invertedQuick = map[[2]string]bool{{"b", "a"}: true, {"a/b", "a"}: true, {"c", ""}: true}
@@ -79,13 +109,15 @@ func setName(set []int) string {
 	return "{" + strings.Join(s, ",") + "}"
 }
 
+const nStdEntries = 6
+
 func allSets() [][]int {
 	out := [][]int{{}}
-	for a := range allEntries {
+	for a := 0; a < nStdEntries; a++ {
 		out = append(out, []int{a})
 	}
-	for a := range allEntries {
-		for b := a + 1; b < len(allEntries); b++ {
+	for a := 0; a < nStdEntries; a++ {
+		for b := a + 1; b < nStdEntries; b++ {
 			out = append(out, []int{a, b})
 		}
 	}
@@ -103,9 +135,80 @@ type config struct {
 	notifications bool
 	depth         int
 	ops           []opDef
+	// query universe (zero values: the standard one)
+	indexes     []string // index names queried after every step
+	pks         []string
+	probes      []string // keys of the comparison gets (the empty one is skipped)
+	rangeProbes []string // bounds of List / RangeScan
+	allPairs    bool     // every (start,end) pair, inverted ones included
+}
+
+func (c *config) fill() {
+	if c.indexes == nil {
+		c.indexes = stdIndexes
+	}
+	if c.pks == nil {
+		c.pks = stdPks
+	}
+	if c.probes == nil {
+		c.probes = stdProbes
+	}
+	if c.rangeProbes == nil {
+		c.rangeProbes = c.probes
+	}
+}
+
+// nameOps: the alphabet of the index-name configurations: Put(pk, S) for S = no entry, every single
+// (name, secondary key) entry of the universe and the given pairs; Delete(pk).
+func nameOps(pks, names, sks []string, pairs [][2]entry) []opDef {
+	sets := [][]int{{}}
+	for _, n := range names {
+		for _, sk := range sks {
+			sets = append(sets, []int{entryIdx(n, sk)})
+		}
+	}
+	for _, p := range pairs {
+		sets = append(sets, []int{entryIdx(p[0].idx, p[0].sk), entryIdx(p[1].idx, p[1].sk)})
+	}
+	var ops []opDef
+	for _, pk := range pks {
+		for _, s := range sets {
+			ops = append(ops, opDef{kind: kPut, pk: pk, set: s, name: fmt.Sprintf("Put(%s,%s)", pk, setName(s))})
+		}
+	}
+	for _, pk := range pks {
+		ops = append(ops, opDef{kind: kDelete, pk: pk, name: fmt.Sprintf("Delete(%s)", pk)})
+	}
+	return ops
+}
+
+// pairs of the index-name configurations: one record in two indexes whose names are a prefix of one another
+// (same and different secondary key), flat key in the longer name + nested key in the shorter one, and the
+// suffix-related neighbour.
+var namePairs = [][2]entry{{{"i", "a"}, {"i-", "a"}}, {{"i", "a/b"}, {"i0", "a"}}, {{"hi", "a"}, {"i", "a"}}}
+
+var nameRangeProbes = []string{"", "a", "c", "a/b", "b/a"}
+
+func nameConfig(name string, notifications bool, depth int, pks, names []string, allPairs bool) config {
+	c := config{name: name, notifications: notifications, depth: depth, indexes: names, pks: pks, allPairs: allPairs,
+		ops: nameOps(pks, names, []string{"a", "a/b"}, namePairs)}
+	if !allPairs {
+		c.rangeProbes = nameRangeProbes
+	}
+	return c
+}
+
+// slashConfig: index names {i, i/j, j}; secondary keys "a" and "j/a" (index "i/j" key "a" and index "i" key
+// "j/a" share the raw prefix `__oxia/idx/i/j/a`), probes around both.
+func slashConfig(name string, notifications bool, depth int) config {
+	pks := []string{"p", "q"}
+	return config{name: name, notifications: notifications, depth: depth, indexes: slashNames, pks: pks, allPairs: false,
+		probes: []string{"", "a", "j", "k", "a/b", "j/a", "j/b", "k/a"},
+		ops:    nameOps(pks, slashNames, []string{"a", "j/a"}, [][2]entry{{{"i", "j/a"}, {"i/j", "a"}}})}
 }
 
 func buildOps(sets [][]int, ephSets [][]int) []opDef {
+	pks := stdPks
 	var ops []opDef
 	for _, pk := range pks {
 		for _, s := range sets {
@@ -134,22 +237,37 @@ func buildOps(sets [][]int, ephSets [][]int) []opDef {
 }
 
 func configs(tier string) []config {
+	cs := configList(tier)
+	for i := range cs {
+		cs[i].fill()
+	}
+	return cs
+}
+
+func configList(tier string) []config {
 	if tier == "thorough" {
 		sessSets := [][]int{{}, {0}, {4}, {2, 3}, {0, 3}, {1, 5}}
 		return []config{
-			{"thorough/sessions/6-sets", true, 5, buildOps(sessSets, [][]int{{3}, {0, 5}, {2}})},
-			{"thorough/notifications-off/all-sets", false, 3, buildOps(allSets(), nil)},
-			{"thorough/notifications-on/all-sets", true, 3, buildOps(allSets(), nil)},
-			{"thorough/notifications-on/reduced-sets", true, 4, buildOps(reducedSets(), nil)},
-			{"thorough/notifications-off/reduced-sets", false, 4, buildOps(reducedSets(), nil)},
+			nameConfig("thorough/index-names/notifications-off", false, 3, []string{"p", "p/q"}, thoroughNames, true),
+			nameConfig("thorough/index-names/notifications-on", true, 2, []string{"p", "p%2Fq"}, thoroughNames, true),
+			slashConfig("thorough/slash-names/notifications-off", false, 3),
+			slashConfig("thorough/slash-names/notifications-on", true, 3),
+			{name: "thorough/sessions/6-sets", notifications: true, depth: 5, ops: buildOps(sessSets, [][]int{{3}, {0, 5}, {2}})},
+			{name: "thorough/notifications-off/all-sets", notifications: false, depth: 3, ops: buildOps(allSets(), nil)},
+			{name: "thorough/notifications-on/all-sets", notifications: true, depth: 3, ops: buildOps(allSets(), nil)},
+			{name: "thorough/notifications-on/reduced-sets", notifications: true, depth: 4, ops: buildOps(reducedSets(), nil)},
+			{name: "thorough/notifications-off/reduced-sets", notifications: false, depth: 4, ops: buildOps(reducedSets(), nil)},
 			// one-off, not part of the tier (about 890 000 transitions): VERIF_CONFIG=all-sets-depth4
-			{"thorough/notifications-on/all-sets-depth4", true, 4, buildOps(allSets(), nil)},
+			{name: "thorough/notifications-on/all-sets-depth4", notifications: true, depth: 4, ops: buildOps(allSets(), nil)},
 		}
 	}
 	return []config{
-		{"quick/notifications-on/reduced-sets", true, 3, buildOps(reducedSets(), nil)},
-		{"quick/notifications-off/7-sets", false, 3, buildOps([][]int{{}, {0}, {1}, {2}, {3}, {5}, {0, 3}}, nil)},
-		{"quick/sessions/small-sets", true, 4, buildOps([][]int{{}, {0}, {4}, {2, 3}}, [][]int{{3}, {0, 5}})},
+		nameConfig("quick/index-names/notifications-off", false, 2, []string{"p", "p/q"}, quickNames, false),
+		nameConfig("quick/index-names/notifications-on", true, 2, []string{"p", "p%2Fq"}, quickNames, false),
+		slashConfig("quick/slash-names/notifications-off", false, 2),
+		{name: "quick/notifications-on/reduced-sets", notifications: true, depth: 3, ops: buildOps(reducedSets(), nil)},
+		{name: "quick/notifications-off/7-sets", depth: 3, ops: buildOps([][]int{{}, {0}, {1}, {2}, {3}, {5}, {0, 3}}, nil)},
+		{name: "quick/sessions/small-sets", notifications: true, depth: 4, ops: buildOps([][]int{{}, {0}, {4}, {2, 3}}, [][]int{{3}, {0, 5}})},
 	}
 }
 
@@ -484,22 +602,44 @@ func (in *inst) modelTriples() map[triple]bool {
 
 const idxPrefix = "__oxia/idx/"
 
-func parseIdxKey(k string) (triple, bool) {
+// parseIdxKey reads a raw key as `prefix / index / secondary \x01 url-escaped primary`, independently of the
+// repo code. The index name is the text up to the first '/', except that a name of the configuration's universe
+// which contains a '/' itself is recognised as well: such a key has more than one reading (the layout is
+// ambiguous then) and all of them are returned.
+func parseIdxKey(k string, names []string) []triple {
 	rest := strings.TrimPrefix(k, idxPrefix)
-	sl := strings.IndexByte(rest, '/')
-	if sl <= 0 {
-		return triple{}, false
+	type cand struct {
+		name string
+		n    int // bytes of the key it takes
 	}
-	name, rest := rest[:sl], rest[sl+1:]
-	sep := strings.IndexByte(rest, 1)
-	if sep < 0 {
-		return triple{}, false
+	var cands []cand
+	if sl := strings.IndexByte(rest, '/'); sl > 0 {
+		cands = append(cands, cand{rest[:sl], sl})
+		// a name written url-escaped (a layout that escapes the name keeps the keys unambiguous) is read as well
+		if u, err := url.PathUnescape(rest[:sl]); err == nil && u != rest[:sl] {
+			cands = append(cands, cand{u, sl})
+		}
 	}
-	pk, err := url.PathUnescape(rest[sep+1:])
-	if err != nil {
-		return triple{}, false
+	for _, n := range names {
+		if strings.Contains(n, "/") && strings.HasPrefix(rest, n+"/") {
+			cands = append(cands, cand{n, len(n)})
+		}
 	}
-	return triple{name, rest[:sep], pk}, true
+	var out []triple
+	for _, c := range cands {
+		name := c.name
+		r := rest[c.n+1:]
+		sep := strings.IndexByte(r, 1)
+		if sep < 0 {
+			continue
+		}
+		pk, err := url.PathUnescape(r[sep+1:])
+		if err != nil {
+			continue
+		}
+		out = append(out, triple{name, r[:sep], pk})
+	}
+	return out
 }
 
 func (in *inst) dumpKeys() (all []string, lines []string) {
@@ -528,17 +668,29 @@ func (in *inst) checkRaw(o opDef) *ev.Violation {
 	nRawChecks.Add(1)
 	keys, lines := in.dumpKeys()
 	got := map[triple]bool{}
+	wantTriples := in.modelTriples()
 	in.raw = in.raw[:0]
 	users := map[string]bool{}
 	for i, k := range keys {
 		switch {
 		case strings.HasPrefix(k, idxPrefix):
 			in.raw = append(in.raw, k)
-			t, ok := parseIdxKey(k)
-			if !ok {
+			ts := parseIdxKey(k, in.cfg.indexes)
+			if len(ts) == 0 {
 				return viol("raw-index:unparsable-key", fmt.Sprintf("after %s: index key %q does not follow prefix/index/secondary\\x01primary", o.name, k))
 			}
-			got[t] = true
+			// a key with several readings (index name containing '/') counts for the reading(s) the model declares;
+			// without one, its first reading is reported as stale
+			matched := false
+			for _, t := range ts {
+				if wantTriples[t] {
+					got[t] = true
+					matched = true
+				}
+			}
+			if !matched {
+				got[ts[0]] = true
+			}
 		case !strings.HasPrefix(k, "__oxia/"):
 			users[k] = true
 			// the stored record must declare what the model declares
@@ -560,7 +712,7 @@ func (in *inst) checkRaw(o opDef) *ev.Violation {
 			return viol("records:missing-record", fmt.Sprintf("after %s: record %q of the model is not stored", o.name, pk))
 		}
 	}
-	want := in.modelTriples()
+	want := wantTriples
 	var stale, missing []string
 	for t := range got {
 		if !want[t] {
@@ -648,30 +800,60 @@ func (in *inst) memoKey(keys []string) [32]byte {
 		b.WriteString(k)
 		b.WriteByte(0)
 	}
-	for _, pk := range pks {
+	for _, pk := range in.cfg.pks {
 		if r := in.recs[pk]; r != nil {
 			fmt.Fprintf(&b, "|%s:%v:%v", pk, r.set, r.sess >= 0)
 		}
 	}
+	// the queries asked depend on the configuration's universe
+	fmt.Fprintf(&b, "|%q|%q|%q|%v", in.cfg.indexes, in.cfg.probes, in.cfg.rangeProbes, in.cfg.allPairs)
 	return sha256.Sum256([]byte(b.String()))
 }
 
 func (in *inst) softViol(key, msg string) { soft.add(in.cfg, key, msg, in.hist) }
 
-// foreign reports whether (sk,pk) is an entry of an index other than idx.
-func (in *inst) foreign(idx, sk, pk string) string {
-	for _, other := range indexes {
-		if other == idx {
+// origin says where a primary key that the index idx does not hold (under that secondary key; sk=nil: under any
+// key) came from. The classes are different root causes and get different violation keys:
+//   - "aliased": the record declares (other, sk') and the raw key prefix other/sk' reads as idx/<something> as well
+//     (only possible when an index name contains '/': the name is not escaped in the key);
+//   - "prefix-related": the record declares the same secondary key in an index whose name is a strict prefix or
+//     a strict extension of idx (the walk or the bounds did not stop at the '/' that ends the name);
+//   - "other": it declares it in an unrelated index.
+func (in *inst) origin(idx string, sk *string, pk string) (class, other string) {
+	r := in.recs[pk]
+	if r == nil {
+		return "", ""
+	}
+	rank := map[string]int{"": 0, "other": 1, "prefix-related": 2, "aliased": 3}
+	for _, e := range r.set {
+		en := allEntries[e]
+		if en.idx == idx {
 			continue
 		}
-		for _, e := range in.refIndex(other) {
-			if e.sk == sk && e.pk == pk {
-				return other
-			}
+		c := ""
+		switch {
+		case strings.HasPrefix(en.idx+"/"+en.sk, idx+"/"):
+			// (the secondary key a get reports for such a key is itself one of several readings: not compared)
+			c = "aliased"
+		case sk != nil && en.sk != *sk:
+		case strings.HasPrefix(en.idx, idx) || strings.HasPrefix(idx, en.idx):
+			c = "prefix-related"
+		default:
+			c = "other"
+		}
+		if rank[c] > rank[class] {
+			class, other = c, en.idx
 		}
 	}
-	return ""
+	return class, other
 }
+
+// slashKey is the class of every query failure whose input has an index name containing '/': either the queried
+// name does, or the answer is an aliased entry of such an index (one root cause: the name is not escaped in the key).
+const slashKey = "index-name-containing-slash"
+
+var originKey = map[string]string{"aliased": slashKey,
+	"prefix-related": "entry-of-index-with-prefix-related-name", "other": "entry-of-other-index"}
 
 func (in *inst) checkQueries() {
 	keys, _ := in.dumpKeys()
@@ -682,13 +864,13 @@ func (in *inst) checkQueries() {
 	nQueryStates.Add(1)
 	ctx := context.Background()
 	s := shard
-	for _, idx := range indexes {
+	for _, idx := range in.cfg.indexes {
 		idx := idx
 		ref := in.refIndex(idx)
 		// ---- list and range scan over every (start,end) pair
-		for _, st := range probes {
-			for _, en := range probes {
-				if !thoroughTier && slashCmp(st, en) > 0 && !invertedQuick[[2]string{st, en}] {
+		for _, st := range in.cfg.rangeProbes {
+			for _, en := range in.cfg.rangeProbes {
+				if !thoroughTier && !in.cfg.allPairs && slashCmp(st, en) > 0 && !invertedQuick[[2]string{st, en}] {
 					continue // quick tier: only three of the inverted (start > end) ranges
 				}
 				var want []idxEntry
@@ -735,7 +917,10 @@ func (in *inst) checkQueries() {
 		}
 		// ---- comparison gets (one read request per index)
 		var gets []*proto.GetRequest
-		for _, k := range probes[1:] {
+		for _, k := range in.cfg.probes {
+			if k == "" {
+				continue
+			}
 			for _, ct := range cmpTypes {
 				gets = append(gets, &proto.GetRequest{Key: k, IncludeValue: true, ComparisonType: ct, SecondaryIndexName: &idx})
 			}
@@ -783,10 +968,23 @@ func (in *inst) compareList(idx string, want []idxEntry, got []string) string {
 	for _, e := range in.refIndex(idx) {
 		in2[e.pk] = true
 	}
+	worst, rank := "", map[string]int{"": 0, "other": 1, "prefix-related": 2, "aliased": 3}
+	outside := false
 	for _, pk := range got {
 		if !in2[pk] {
-			return "result-outside-index"
+			outside = true
+			if c, _ := in.origin(idx, nil, pk); rank[c] > rank[worst] {
+				worst = c
+			}
 		}
+	}
+	switch {
+	case worst == "aliased" || strings.Contains(idx, "/"):
+		return slashKey
+	case worst == "prefix-related":
+		return "result-is-" + originKey[worst]
+	case outside:
+		return "result-outside-index"
 	}
 	return "differs-from-reference"
 }
@@ -848,6 +1046,10 @@ func (in *inst) checkGet(idx string, ref []idxEntry, g *proto.GetRequest, gr *pr
 	}
 	desc := fmt.Sprintf("Get(index=%s,%s %q)", idx, ct, g.Key)
 	refs := fmt.Sprintf("index %s=%v", idx, ref)
+	if strings.Contains(idx, "/") {
+		in.checkGetSlashName(idx, ref, g, gr, desc, refs)
+		return
+	}
 	if gr.Status == proto.Status_KEY_NOT_FOUND {
 		if wantFound {
 			in.softViol(fmt.Sprintf("get:%s:entry-not-found", ct), fmt.Sprintf("%s = not found, reference secondary key %q; %s", desc, wantSk, refs))
@@ -872,14 +1074,40 @@ func (in *inst) checkGet(idx string, ref []idxEntry, g *proto.GetRequest, gr *pr
 		return
 	}
 	// wrong answer: say where it came from
-	switch f := in.foreign(idx, gotSk, gotPk); {
-	case f != "":
-		in.softViol(fmt.Sprintf("get:%s:answers-with-entry-of-other-index", ct),
-			fmt.Sprintf("%s = (sk=%q, pk=%q) which is an entry of index %s, reference %s; %s; index %s=%v", desc, gotSk, gotPk, f, wantStr(wantSk, wantFound), refs, f, in.refIndex(f)))
+	switch class, f := in.origin(idx, &gotSk, gotPk); {
 	case inIdx:
+		// an entry of the queried index, but not the one the reference gives
 		in.softViol(fmt.Sprintf("get:%s:wrong-entry", ct), fmt.Sprintf("%s = (sk=%q, pk=%q), reference %s; %s", desc, gotSk, gotPk, wantStr(wantSk, wantFound), refs))
+	case class == "aliased":
+		in.softViol(fmt.Sprintf("get:%s:%s", ct, slashKey),
+			fmt.Sprintf("%s = (sk=%q, pk=%q): the raw key of that record's entry in index %q reads as an entry of index %q too; reference %s; %s; index %s=%v", desc, gotSk, gotPk, f, idx, wantStr(wantSk, wantFound), refs, f, in.refIndex(f)))
+	case class != "":
+		in.softViol(fmt.Sprintf("get:%s:answers-with-%s", ct, originKey[class]),
+			fmt.Sprintf("%s = (sk=%q, pk=%q) which is an entry of index %q, reference %s; %s; index %s=%v", desc, gotSk, gotPk, f, wantStr(wantSk, wantFound), refs, f, in.refIndex(f)))
 	default:
 		in.softViol(fmt.Sprintf("get:%s:returns-nonexistent-entry", ct), fmt.Sprintf("%s = (sk=%q, pk=%q) which no live record declares, reference %s; %s", desc, gotSk, gotPk, wantStr(wantSk, wantFound), refs))
+	}
+}
+
+// checkGetSlashName: the same oracle for a queried index whose name contains '/'; every disagreement is one class.
+func (in *inst) checkGetSlashName(idx string, ref []idxEntry, g *proto.GetRequest, gr *proto.GetResponse, desc, refs string) {
+	wantSk, wantFound := refGet(ref, g.Key, g.ComparisonType)
+	got := "not found"
+	ok := !wantFound
+	if gr.Status != proto.Status_KEY_NOT_FOUND {
+		if gr.Status != proto.Status_OK || gr.Key == nil || gr.SecondaryIndexKey == nil {
+			got, ok = fmt.Sprintf("status %v key=%v sk=%v", gr.Status, gr.Key, gr.SecondaryIndexKey), false
+		} else {
+			got, ok = fmt.Sprintf("(sk=%q, pk=%q)", *gr.SecondaryIndexKey, *gr.Key), false
+			for _, e := range ref {
+				if wantFound && e.sk == wantSk && e.sk == *gr.SecondaryIndexKey && e.pk == *gr.Key && in.recordMismatch(e.pk, gr) == "" {
+					ok = true
+				}
+			}
+		}
+	}
+	if !ok {
+		in.softViol(fmt.Sprintf("get:%s:%s", g.ComparisonType, slashKey), fmt.Sprintf("%s = %s, reference %s; %s", desc, got, wantStr(wantSk, wantFound), refs))
 	}
 }
 
@@ -894,7 +1122,7 @@ func wantStr(sk string, found bool) string {
 
 func (in *inst) Key() string {
 	var b strings.Builder
-	for _, pk := range pks {
+	for _, pk := range in.cfg.pks {
 		if r := in.recs[pk]; r != nil {
 			fmt.Fprintf(&b, "%s:%v:%v|", pk, r.set, r.sess >= 0)
 		}
@@ -971,9 +1199,15 @@ func main() {
 	run.Add("get_queries_on_nonempty_index", nGetNonTrivial.Load())
 	run.Add("get_queries_outside_index_bounds", nEdgeGets.Load())
 	run.Coverage["configs"] = depths
-	run.Coverage["probe_keys"] = probes
+	run.Coverage["probe_keys"] = stdProbes
+	names := map[string][]string{}
+	for i := range cfgs {
+		names[cfgs[i].name] = cfgs[i].indexes
+	}
+	run.Coverage["index_names_queried"] = names
 	o := cfgs[0].ops
 	run.Sample(map[string]any{"config": cfgs[0].name, "ops": []string{o[1].name, o[len(o)/3+7].name, o[len(o)-4].name}})
+	run.Sample(map[string]any{"query": "Get(index=i, CEILING \"c\") with index i={a:p} and index i-={a:p/q} (the next key after the last entry of i belongs to an index whose name extends \"i\")", "reference": "not found"})
 	run.Sample(map[string]any{"query": "Get(index=j, FLOOR \"0\") with index i={a:p} and j={b:q}", "reference": "not found"})
 	run.Sample(map[string]any{"query": "List(index=i, [\"a\",\"a/c\")) with i={a:p, a/b:q, b:p/q}", "reference": []string{"p", "p/q", "q"}})
 	run.Assume = []string{"single shard, RF=1 leader (no followers); in-memory Pebble, WAL on /dev/shm",
@@ -982,7 +1216,7 @@ func main() {
 		"a delete-range that spans internal keys fails to apply while notifications are enabled (a stored notification batch does not parse as a record): the failed write is left to C13, the state must still satisfy both oracles"}
 	run.DistinctN(run.Get("distinct_states"))
 	_ = os.RemoveAll(scratch)
-	os.Exit(run.Finish("per configuration (notifications on/off, with/without sessions): BFS over all write histories up to the depth from the alphabet {put pk with an index-entry set, delete pk, 4 range deletes (one spanning internal keys), create/close session, ephemeral indexed put}; after every step the raw __oxia/idx keys and the stored records are compared with the model and, once per distinct DB content, List+RangeScan over all probe (start,end) pairs and Get x 5 comparison types x probe keys are compared with a sorted reference, for both indexes; a state is distinct when records, declarations, ephemeral flags, session state or raw index keys differ"))
+	os.Exit(run.Finish("index-names / slash-names configurations: BFS over Put(pk, one or two entries in any index of a universe of index names that are prefixes / extensions / byte-order neighbours of one another, or contain '/') and Delete, every index name of the universe queried; other configurations  over all write histories up to the depth from the alphabet {put pk with an index-entry set, delete pk, 4 range deletes (one spanning internal keys), create/close session, ephemeral indexed put}; after every step the raw __oxia/idx keys and the stored records are compared with the model and, once per distinct DB content, List+RangeScan over all probe (start,end) pairs and Get x 5 comparison types x probe keys are compared with a sorted reference, for every index name of the configuration; a state is distinct when records, declarations, ephemeral flags, session state or raw index keys differ"))
 }
 
 func sortedKeys(m map[string]ev.Violation) []string {
